@@ -186,8 +186,8 @@ def run(rep: Report, tier: str) -> None:
     for p in progs:
         if p["addbwd"] != "1":
             raise common.MachineryError("spec emitted an attenuating add")
-        check_program(rep, p, rng, 2 if quick else 4)
-    mix_weights(rep, rng, 40 if quick else 400)
+        check_program(rep, p, rng, 2 if quick else 8)
+    mix_weights(rep, rng, 40 if quick else 4000)
     rep.exhaustive = True
     rep.traces = len(progs)
     rep.rule = "every residual program (ordered forest) with <= 4 (thorough: 6) layers emitted by TLC with its path coefficient bags; 2-4 trials each (random taus in [1e-3,1e3], linear / nonlinear / unit-scaled branches, residual_apply and split/add); non-trivial = at least 2 layers"
